@@ -17,7 +17,7 @@ LEVEL_TEXT = ("The unmodified Waveshare client runs on an in-memory serial link;
               "the stream itself, not a second parser: which valid packets may be missing is derived from what precedes them. The bytes "
               "held back by the client are measured by walking its object graph after every chunk.")
 TECHNIQUE = "grammar-based stream generation with a construction-derived oracle + object-graph measurement of retained bytes (Hypothesis; atheris target in thorough)"
-RULE = ("stream = sequence of {valid packet, corrupted packet, truncated packet, noise run (marker-free | with markers | ending in AA)} x "
+RULE = ("stream = sequence of {valid packet (also with checksum 0xAA), corrupted packet, truncated packet, noise run (marker-free, also 0x55-led | with markers | ending in AA, also AA-fill)} + systematic boundary scenarios x "
         "segmentation; oracle: delivered messages are a subsequence (in order) of the valid packets; a valid packet may be missing only if "
         "it is the first valid packet after a run that contains a marker, a truncated packet or ends in a half marker; nothing else is "
         "delivered; bytes reachable from the client object graph at quiescence <= baseline + 256; non-trivial = stream with >= 1 noise run "
